@@ -74,11 +74,11 @@ func c16reregister(c *an.Ctx) {
 	if outer == nil || cmdFn == nil || closeFn == nil {
 		return
 	}
-	if len(outer.AnonFuncs) != 1 {
-		c.Und(outer, "callback closure", outer.Pos(), "connectCallback does not return a single closure")
+	fn := returnedFunc(outer)
+	if fn == nil {
+		c.Und(outer, "callback closure", outer.Pos(), "connectCallback does not return a single closure or method value")
 		return
 	}
-	fn := outer.AnonFuncs[0]
 	topicMapF := c.P.Field("nsqd", "NSQD", "topicMap")
 	chanMapF := c.P.Field("nsqd", "Topic", "channelMap")
 	register := c.P.Func("github.com/nsqio/go-nsq", "Register")
@@ -511,10 +511,13 @@ func c16precreate(c *an.Ctx) {
 func c16faults(c *an.Ctx) {
 	outer := c.Fn("nsqd", "connectCallback")
 	closeFn := c.Fn("nsqd", "(*lookupPeer).Close")
-	if outer == nil || closeFn == nil || len(outer.AnonFuncs) != 1 {
+	if outer == nil || closeFn == nil {
 		return
 	}
-	fn := outer.AnonFuncs[0]
+	fn := returnedFunc(outer)
+	if fn == nil {
+		return
+	}
 	// E_INVALID reply => Close
 	var invalidEdges []an.Edge
 	an.Instrs(fn, func(in ssa.Instruction) {
@@ -834,4 +837,36 @@ func c16peerset(c *an.Ctx) {
 		}
 		c.Check(good, fn, sprintf("lists merge from the same places (merge #%d)", nm), pp[0].Pos(), "", "the peer list and the address list take their values from different places at a control-flow merge: they no longer describe the same set of nsqlookupds")
 	}
+}
+
+// returnedFunc: the function a constructor of callbacks returns – its single closure, or the method behind a bound method
+// value (`return (&connector{…}).onConnect`). nil when it returns anything else or several different functions.
+func returnedFunc(outer *ssa.Function) *ssa.Function {
+	var out *ssa.Function
+	bad := false
+	for _, r := range an.Returns(outer) {
+		if len(r.Results) != 1 {
+			return nil
+		}
+		for _, o := range an.Origins(r.Results[0]) {
+			mc, ok := o.(*ssa.MakeClosure)
+			if !ok {
+				bad = true
+				continue
+			}
+			f, _ := mc.Fn.(*ssa.Function)
+			if m := an.BoundMethod(f); m != nil {
+				f = m
+			}
+			if f == nil || (out != nil && out != f) {
+				bad = true
+				continue
+			}
+			out = f
+		}
+	}
+	if bad {
+		return nil
+	}
+	return out
 }
